@@ -65,14 +65,26 @@ def determinism(argv) -> int:
         prop, lo, hi = argv[1], int(argv[2]), int(argv[3])
         mod = batch.load_check(prop)
         out = {}
+
+        def index_of(i):
+            # odd positions are mapped far beyond the systematic prefix that many generators
+            # walk for their first run indices, so that the random strata are compared too
+            return i // 2 if i % 2 == 0 else 1_000_003 + 7 * i
+
+        _make_plan = batch.make_plan
+
+        class _B:    # local shim: same call signature, remapped index
+            @staticmethod
+            def make_plan(mod_, prop_, seed_, i_, tier_):
+                return _make_plan(mod_, prop_, seed_, index_of(i_), tier_)
         for i in range(lo, hi):
-            plan = batch.make_plan(mod, prop, 0, i, 'quick')
+            plan = _B.make_plan(mod, prop, 0, i, 'quick')
             res = batch.safe_execute(mod, plan)
             out[str(i)] = [res['digest'], sorted(v[0] for v in res['violations']),
                            (res.get('harness_error') or '')[:80]]
         # second pass, reverse order, same process
         for i in reversed(range(lo, hi)):
-            plan = batch.make_plan(mod, prop, 0, i, 'quick')
+            plan = _B.make_plan(mod, prop, 0, i, 'quick')
             res = batch.safe_execute(mod, plan)
             again = [res['digest'], sorted(v[0] for v in res['violations']),
                      (res.get('harness_error') or '')[:80]]
